@@ -77,10 +77,11 @@ def is_push(cv):
     return (cv.short or "").endswith("WriteErrorList::push") or (cv.target or "").endswith("WriteErrorList<E>>::push") or ((cv.short or "").split("::")[-1] == "push" and "WriteErrorList" in (cv.inst or cv.short or ""))
 
 
-def rule_soft_sites(ctx):
-    R = "C11/soft-sites"
+def rule_soft_sites(ctx, R="C11/soft-sites", only=None, floor=21):
     n_ok = 0
     for s in SITES:
+        if only is not None and s["what"] not in only:
+            continue
         bodies = ctx.prog.by_short.get(s["caller"])
         key = (s["caller"].split("::")[-1] if "closure" not in s["caller"] else s["caller"].split("::")[-2], s["what"])
         if not bodies:
@@ -173,7 +174,7 @@ def rule_soft_sites(ctx):
         ctx.check(not leaving and bool(reachE & reachS), R, key + ("continues",), b.where(E), "after a failing %s control rejoins the normal continuation (the remaining steps still run)" % s["what"],
                   "a failing %s can leave %s early at %s" % (s["what"], s["caller"].split("::")[-1], [b.where(y) for y in leaving]))
         n_ok += 1
-    ctx.floor(R, "best-effort sites located", n_ok, 21)
+    ctx.floor(R, "best-effort sites located", n_ok, floor)
 
 
 SUBWRITERS = [
@@ -350,7 +351,132 @@ def rule_partial_results_kept(ctx, R="C11/partial-results-kept"):
                       "the step can fail (%s) before processor_architecture is stored" % bad[:2])
 
 
+# foreign types whose serde::Serialize implementation can return an error for some values
+FALLIBLE_SER = [
+    (r"std::path::Path(Buf)?\b", "serde fails on a path that is not valid UTF-8"),
+    (r"std::time::SystemTime\b", "serde fails on a time before the UNIX epoch"),
+    (r"std::cell::RefCell\b", "serde fails when the cell is mutably borrowed"),
+    (r"std::sync::(Mutex|RwLock)\b", "serde fails on a poisoned lock"),
+]
+# variants that carry such a type but whose values never enter a soft-error list: variant -> (functions that may construct it, why that is harmless)
+FALLIBLE_SER_REVIEWED = {
+    ("linux::errors::MapsReaderError", "SymlinkError"): ((), "never constructed"),
+    ("linux::errors::ModuleReaderError", "MapFile"): (("linux::module_reader::ReadFromModule::read_from_file",),
+                                                      "read_from_file's only caller (the module-list fallback) logs the error and uses an empty id"),
+}
+READ_FROM_FILE_CALLERS = ("linux::sections::mappings::write",)
+
+
+def rule_soft_errors_serialisable(ctx, R="C11/serialisable"):
+    """generate_dump writes the stream from serde_json::to_string_pretty(list) and drops the stream when that fails
+    (`.unwrap_or_default()`): with a String sink serde_json fails only when a Serialize implementation reports an error.  So nothing that
+    can sit in a soft-error list may have a fallible Serialize: no fallible foreign type among the fields of the error types, no custom
+    error or delegation to such a type in the crate's own `serialize_with` helpers."""
+    import re
+    prog = ctx.prog
+    fall = [(re.compile(rx), why) for rx, why in FALLIBLE_SER]
+    root = "linux::minidump_writer::write_soft_errors"
+    if root not in prog.by_short:
+        ctx.violated(R, ("anchor", "write_soft_errors"), None, "anchor missing: %s" % root)
+        return
+    wb = prog.by_short[root][0]
+    ser = [(bi, CalleeView(t["callee"])) for bi, t in wb.calls(lambda c: (c.short or "").startswith("serde_json::to_"))]
+    ctx.floor(R, "serde_json call in write_soft_errors", len(ser), 1)
+    # ---- type closure from the element type of the list
+    seen, todo = set(), []
+    for bi, cv in ser:
+        for name in prog.adts:
+            if name in (cv.inst or ""):
+                todo.append(name)
+    while todo:
+        n = todo.pop()
+        if n in seen:
+            continue
+        seen.add(n)
+        for v in prog.adts[n].get("variants", []):
+            for f in v.get("fields", []):
+                for name in prog.adts:
+                    if name in f["ty"] and name not in seen:
+                        todo.append(name)
+    ctx.floor(R, "error types that can sit in the soft-error list", len(seen), 25)
+    constructed = {}
+    for b in prog.bodies:
+        for blk in b.blocks:
+            for st in blk["stmts"]:
+                if st["k"] == "assign" and st["r"]["k"] == "agg" and st["r"].get("ak") == "adt" and st["r"].get("vname"):
+                    constructed.setdefault((norm(st["r"]["adt"]), st["r"]["vname"]), set()).add(b.short.split("::{closure")[0])
+    nf = 0
+    for n in sorted(seen):
+        for v in prog.adts[n].get("variants", []):
+            for f in v.get("fields", []):
+                nf += 1
+                hit = [why for rx, why in fall if rx.search(f["ty"])]
+                if not hit:
+                    continue
+                key = (n.split("::")[-1], v["name"], f["name"])
+                rev = FALLIBLE_SER_REVIEWED.get((n, v["name"]))
+                made = constructed.get((n, v["name"]), set())
+                if rev is not None and made <= set(rev[0]):
+                    ctx.ok(R, ("field",) + key, None, "%s::%s.%s is a %s (%s) — reviewed: %s; constructed only in %s" % (key + (f["ty"], hit[0], rev[1], sorted(made) or "no function")))
+                else:
+                    ctx.violated(R, ("field",) + key, None, "%s::%s.%s is a %s: %s, and then the whole soft-error stream is dropped (constructed in %s)" % (key + (f["ty"], hit[0], sorted(made))))
+    ctx.floor(R, "fields of soft-error types examined", nf, 100)
+    # the reviewed exception for MapFile leans on who calls read_from_file
+    cg, _ = prog.callgraph()
+    callers = sorted({f.split("::{closure")[0] for f, cs in cg.items() if any(c.endswith("ReadFromModule>::read_from_file") or c.endswith("ReadFromModule::read_from_file") for c in cs)})
+    ctx.check(set(callers) <= set(READ_FROM_FILE_CALLERS), R, "read_from_file-callers", None, "read_from_file is only called by the module-list fallback, which logs its error",
+              "read_from_file (whose error carries a PathBuf) has a new caller: %s" % [c for c in callers if c not in READ_FROM_FILE_CALLERS])
+    # ---- the crate's own serialize_with helpers and everything else serde calls back into
+    scope = prog.reachable([root])
+    helpers = sorted(f for f in scope if f.split("::")[-1].startswith("serialize_") and "serializers" in f)
+    ctx.floor(R, "serialize_with helpers reachable from the soft-error writer", len(helpers), 8)
+    n_calls = 0
+    for f in sorted(scope):
+        derived = "_serde::Serialize for" in f
+        for b in prog.by_short.get(f, ()):
+            for bi, t in b.calls():
+                cv = CalleeView(t["callee"])
+                if cv.local:
+                    continue
+                inst = cv.inst or ""
+                n_calls += 1
+                fk = f.split("::{closure")[0].split("::")[-1] if not derived else f.split(" for ")[-1].split(">")[0].split("::")[-1]
+                if (cv.target or "").endswith("ser::Error::custom"):
+                    ctx.violated(R, ("custom-error", fk), b.where(bi), "%s can report a serialisation error of its own: the whole soft-error stream is dropped when it does" % fk)
+                    continue
+                if derived:
+                    continue    # field types of derived implementations are covered by the type closure above
+                if "serde" not in inst:
+                    continue
+                hit = [why for rx, why in fall if rx.search(inst)]
+                if hit:
+                    ctx.violated(R, ("delegates", fk), b.where(bi), "%s serialises through %s: %s, and then the whole soft-error stream is dropped" % (fk, inst[:100], hit[0]))
+    ctx.ok(R, "helpers-total", None, "%d foreign calls in %d functions reachable from the soft-error writer: no custom serialisation error, no fallible foreign Serialize" % (n_calls, len(scope)), nontrivial=False)
+
+
+def rule_serialisers_total(ctx, R="C11/serialisers-total"):
+    """a recorded failure must still be serialisable when the dump is finished: the C02 panic ledgers restricted to what the soft-error
+    writer reaches through serde's callbacks (a panic there unwinds out of dump() after all the work is done)"""
+    from engine import taint as T
+    from rules import c02
+    prog = ctx.prog
+    root = "linux::minidump_writer::write_soft_errors"
+    if root not in prog.by_short:
+        ctx.violated(R, ("anchor", "write_soft_errors"), None, "anchor missing: %s" % root)
+        return
+    own = prog.reachable([root])
+    taint = T.Taint(prog, c02.ENTRIES)
+    st = c02.ledger(ctx, taint, R, scope=lambda f: f in own)
+    c02.rule_explicit_panic(ctx, taint, rule=R + "-explicit", scope=lambda f: f in own)
+    helpers = [f for f in own if f.split("::")[-1].startswith("serialize_") and "serializers" in f]
+    ctx.floor(R, "serialize_with helpers reachable from the soft-error writer", len(helpers), 8)
+    ctx.floor(R, "functions reachable from the soft-error writer", len(own), 100)
+    ctx.ok(R, "sinks", None, "panic sinks examined in the serialisation of soft errors: %s" % st, nontrivial=False)
+
+
 def run(ctx):
+    rule_soft_errors_serialisable(ctx)
+    rule_serialisers_total(ctx)
     rule_soft_sites(ctx)
     rule_subwriter_map(ctx)
     rule_stream_always(ctx)
